@@ -7,6 +7,7 @@ The selection dag is splitted into trees by this module.
 import logging
 from .. import ir
 from ..utils.tree import Tree
+from ..utils.collections import OrderedSet
 
 
 class DagSplitter:
@@ -46,7 +47,9 @@ class DagSplitter:
     def split_group_into_trees(self, sgraph, function_info, group):
         nodes = sgraph.get_group(group)
         # Get rid of ENTRY and EXIT:
-        nodes = set(
+        # Keep the nodes in creation order, the order decides the order of
+        # the emitted instructions:
+        nodes = OrderedSet(
             filter(lambda x: x.name.op not in ["ENTRY", "EXIT"], nodes)
         )
 
@@ -179,9 +182,9 @@ def topological_sort_modified(nodes, start):
 
     # Start to visit with pre-knowledge of the last node!
     visit(start)
-    while unmarked:
-        node = next(iter(unmarked))
-        visit(node)
+    for node in nodes:
+        if node in unmarked:
+            visit(node)
 
     # Hack: move tail again to tail:
     if L:
